@@ -733,6 +733,17 @@ func init() {
 	reg("(time.Time).Minute", field(4))
 	reg("(time.Time).Second", field(5))
 	reg("(time.Time).Nanosecond", field(6))
+	reg("(time.Time).Clock", func(ex *Exec, fr *frame, pos token.Pos, args []value) value {
+		h, mi, sec := ex.timeHMS(ex.asTime(args[0]))
+		return tuple{h, mi, sec}
+	})
+	reg("(time.Time).Date", func(ex *Exec, fr *frame, pos token.Pos, args []value) value {
+		y, m, d := ex.timeYMD(ex.asTime(args[0]))
+		return tuple{y, m, d}
+	})
+	reg("(time.Time).YearDay", func(ex *Exec, fr *frame, pos token.Pos, args []value) value {
+		panic(ex.unsupported("time.Time.YearDay"))
+	})
 	reg("(time.Time).Format", func(ex *Exec, fr *frame, pos token.Pos, args []value) value {
 		t := ex.asTime(args[0])
 		layout := ex.wantConcrete(args[1], "time.Format layout")
